@@ -1598,6 +1598,16 @@ def gen_token_cluster(rng, cid):
             rq["no_token"] = True
         if rng.random() < 0.4:
             rq["xauth"] = True      # token in x-piko-authorization, the client's own credentials for the upstream in Authorization
+        if rng.random() < 0.35:
+            # a form post (urlencoded or multipart), possibly with a parameter that looks like a credential: the body is the
+            # upstream's business - whoever inspects the request on the way must not consume it
+            rq["method"] = "POST"
+            if rng.random() < 0.6:
+                rq["headers"] = rq["headers"] + [[H("Content-Type"), H("application/x-www-form-urlencoded")]]
+                rq["body"] = {"hex": H(rng.choice(["a=1&b=2", "access_token=not-a-piko-token&x=1", "q=" + "z" * 300]))}
+            else:
+                rq["headers"] = rq["headers"] + [[H("Content-Type"), H("multipart/form-data; boundary=XB")]]
+                rq["body"] = {"hex": H("--XB\r\nContent-Disposition: form-data; name=\"f\"\r\n\r\nvalue\r\n--XB--\r\n")}
         reqs.append(rq)
     return {"id": cid, "timeout_ms": NORMAL_TIMEOUT_MS, "kind": "adversarial", "auth": True, "nodes": nodes, "requests": reqs}
 
@@ -1618,6 +1628,16 @@ def monitor_token_path(cl, ri, rq, ob):
         got = [U(v) for nme, v in ob["up_reqs"][0]["headers"] if nme.lower() == "authorization"]
         if got != ["Basic dXNlcjpwYXNz"]:
             return fail("client-credentials-lost", "the client's own Authorization header reached the upstream as %r" % got)
+    if ob.get("stamped") and ob.get("up_reqs") and rq.get("body") is not None:
+        rec = ob["up_reqs"][0]
+        if digest(rec["body_sha"], rec["body_len"]) != body_digest(rq.get("body")):
+            return fail("transparent-req", "the request body changed on its way through an authenticated proxy port: %d bytes sent, the upstream read %d"
+                        % (len(body_bytes(rq["body"])), rec["body_len"]))
+    if not ob.get("stamped") and ob["status"] in (502, 504) and not rq.get("no_token") and not (allowed and ep not in allowed):
+        have = [u_ for n in cl["nodes"] for u_ in local_ups(n, ep)]
+        if have and rq.get("body") is not None:
+            return fail("transparent-req", "an authorised %s with a %d-byte body for %r (an upstream is connected) was answered %d by piko itself"
+                        % (rq["method"], len(body_bytes(rq["body"])), ep, ob["status"]))
     if ob.get("stamped"):
         se = U(ob["stamp_ep"])
         if se != ep:
